@@ -92,3 +92,12 @@ Theorem C02_status_revision_exceeds_previous :
                  os_revision p <> 0%Z /\ (os_revision p < os_revision mem1)%Z).
 Proof. exact revision_from_previous. Qed.
 Print Assumptions C02_status_revision_exceeds_previous.
+
+(** C02 at the controller level (coq/corr/SetMonitors.v m02s: the phase-level monitor C02Corr on the member requests of
+    an active pass of an ObjectSet with a revision - handover only forward, one controller, owner's revision recorded)
+    accepts every pass of the ObjectSet controller model. *)
+From PKO Require Import ObjectSet.
+From PKOCorr Require Import SetCorr SetMonitors SetMonSound SetMonSound2.
+Theorem C02_set_monitor_sound : forall c : scase, m02s (set_obs_s c (SetCorr.model_run c)) = true.
+Proof. exact m02s_sound. Qed.
+Print Assumptions C02_set_monitor_sound.
